@@ -96,7 +96,8 @@ def reset_falcon_caches():
     for name in ('falcon.util.misc', 'falcon.util.mediatypes', 'falcon.media.handlers',
                  'falcon.asgi.ws', 'falcon.util.uri', 'falcon.routing.converters',
                  'falcon.request_helpers', 'falcon.util.structures', 'falcon.response',
-                 'falcon.request', 'falcon.asgi.request', 'falcon.app_helpers'):
+                 'falcon.request', 'falcon.asgi.request', 'falcon.app_helpers',
+                 'falcon.asgi._asgi_helpers'):
         m = mods.get(name)
         if m is None:
             continue
